@@ -744,4 +744,44 @@ theorem zero_listed_counterexample :
   revert h2
   decide +kernel
 
+/-- `createVariable` / `copyVariable` IN PLACE followed by `updatemeta()` -/
+theorem coherent_create_then_updatemeta (s : St) (v : DVar) (h : Coherent s) (ht : TimeOk s)
+    (hn : 1 ≤ (updatemeta (putVar s v)).varlist.length) : Coherent (updatemeta (putVar s v)) := by
+  have hv := h.2.2.2.2.2.2
+  obtain ⟨rows, htf, hl, hh⟩ := h.2.2.1
+  obtain ⟨_, hT, hL, _, _, _, _, _, _, hvg, hsd, hst, _⟩ := frame_eq (frame_putVar s v)
+  refine finish _ hn ?_ ?_ ?_
+  · rw [hvg, hL]; exact hv
+  · rw [hsd, hst]; exact ht.1
+  · intro w rows' htf'
+    rw [tflag_putVar, htf] at htf'
+    simp only [Option.some.injEq, Prod.mk.injEq] at htf'
+    rw [hT, hsd, hst, ← htf'.2]
+    exact ⟨hl, hh⟩
+
+/-- **in place, `createVariable` alone does not restore the property**: the new variable is listed and counted, the VAR
+dimension and the second axis of TFLAG keep their length until `updatemeta()` is called (recorded finding; the
+docstring of `createVariable` promises otherwise) -/
+theorem create_variable_counterexample :
+    (putVar exSt ⟨"NEW", stdG⟩).nvars = 3 ∧ (putVar exSt ⟨"NEW", stdG⟩).varDim = 2 ∧ ¬ Coherent (putVar exSt ⟨"NEW", stdG⟩) ∧
+      Coherent (updatemeta (putVar exSt ⟨"NEW", stdG⟩)) := by
+  refine ⟨by decide +kernel, by decide +kernel, ?_, ?_⟩
+  · intro h
+    have h2 := h.2.1
+    revert h2
+    decide +kernel
+  · exact coherent_create_then_updatemeta exSt _ exSt_coherent.1 exSt_coherent.2 (by decide +kernel)
+
+/-- **a copy without variables keeps the variable list of its source**: NVARS is 0 while VAR-LIST still names the
+source's variables, none of which exists (recorded finding; the list is what keeps the VAR dimension at the right length
+for the callers that fill the copy) -/
+theorem copy_novars_counterexample :
+    (copyNoVars exSt).nvars = 0 ∧ (copyNoVars exSt).varlist = ["A0", "A1"] ∧ (copyNoVars exSt).vars = [] ∧
+      ¬ Coherent (copyNoVars exSt) := by
+  refine ⟨by decide +kernel, by decide +kernel, by decide +kernel, ?_⟩
+  intro h
+  have h1 := h.1
+  revert h1
+  decide +kernel
+
 end Props.C10
